@@ -43,7 +43,122 @@ def run(ctx: core.Ctx) -> None:
                 if not same:
                     ctx.violation("TwoPhaseIsSinglePhase", f"instantiation {inst.describe()} grid {g}: TwoPhaseReservoir differs from "
                                   "SinglePhaseReservoir", replay={"stage": "twophase", "variant": v, "grid": g})
+    ownership(ctx)
     ctx.sample({"kinds": ["twophase", "multiphase"], "depth": depth})
+
+
+# ---- ownership: library operations only read caller-owned data (Ownership.tla) ------------------------------------------
+def _digest(x) -> str:
+    import hashlib  # noqa: PLC0415
+
+    import pandas as pd  # noqa: PLC0415
+
+    h = hashlib.sha1()
+    if isinstance(x, pd.DataFrame):
+        h.update(repr(list(x.columns)).encode() + repr(list(x.index[:5])).encode() + repr(x.shape).encode())
+        for c in x.columns:
+            h.update(np.ascontiguousarray(x[c].to_numpy()).tobytes())
+    elif isinstance(x, dict):
+        h.update(repr(sorted(x)).encode())
+        for k in sorted(x):
+            h.update(np.ascontiguousarray(np.asarray(x[k])).tobytes())
+    else:
+        a = np.asarray(x)
+        h.update(repr((a.shape, a.dtype.str)).encode() + np.ascontiguousarray(a).tobytes())
+    return h.hexdigest()
+
+
+def ownership(ctx: core.Ctx) -> None:
+    import pandas as pd  # noqa: PLC0415
+    from bluebonnet.flow import FlowProperties, SinglePhaseReservoir, rescale_pseudopressure  # noqa: PLC0415
+    from bluebonnet.flow.flowproperties import RelPermParams, relative_permeabilities  # noqa: PLC0415
+    from bluebonnet.fluids import Fluid, pseudopressure  # noqa: PLC0415
+    from bluebonnet.forecast import ForecasterOnePhase, fit_production_pressure  # noqa: PLC0415
+
+    r = ctx.model_check("Ownership", "MC_Ownership.cfg", workers=2)
+    ctx.expect_refuted("Ownership", "MC_Ownership_dev.cfg", "NoWrite", workers=2)
+    ops = r.by_tag("OPS")[0]["ops"]
+    rng = np.random.default_rng([ctx.seed, 4242])
+    for rep in range(4 if ctx.quick else 40):
+        as_dict = rep % 2 == 1
+        base = drv.shipped_table("pvt_gas").iloc[1:].reset_index(drop=True)
+        table = {c: base[c].to_numpy().copy() for c in base.columns} if as_dict else base.copy()
+        pvt = pd.read_csv(__import__("bbv").env.REPO / "tests/data/pvt_gas_HAYNESVILLE SHALE_20.csv")
+        nt = int(rng.integers(12, 40))
+        time = np.linspace(0, 1.5, nt) ** 2
+        sched = np.linspace(3000.0, 1000.0, nt)
+        caller = {"time": time, "schedule": sched, "table": table, "pvt": pvt,
+                  "pressure": rng.uniform(100, 9000, 7), "t_fit": np.linspace(0, 2.0, 60),
+                  "saturations": np.array([(0.3, 0.1, 0.6), (0.05, 0.1, 0.85)], dtype=[("So", "f8"), ("Sw", "f8"), ("Sg", "f8")])}
+        with warnings.catch_warnings():
+            warnings.simplefilter("ignore")
+            fp = None
+            res = None
+            interp = None
+            fc = None
+
+            def run_op(name):
+                nonlocal fp, res, interp, fc
+                if name == "FlowProperties":
+                    fp = FlowProperties(caller["table"], 8000.0)
+                elif name == "rescale":
+                    rescale_pseudopressure(caller["table"], 1000.0, 8000.0)
+                elif name == "simulate":
+                    res = SinglePhaseReservoir(12, 1000.0, 8000.0, fp)
+                    res.simulate(caller["time"], caller["schedule"])
+                elif name == "recovery_factor":
+                    res.recovery_factor()
+                    res.recovery_factor(density=True)
+                elif name == "interpolator":
+                    interp = res.recovery_factor_interpolator()
+                    interp(caller["time"])
+                elif name == "fit":
+                    caller["y_fit"] = 250.0 * interp(caller["t_fit"] / 1.3)
+                    before["y_fit"] = _digest(caller["y_fit"])
+                    fc = ForecasterOnePhase(interp)
+                    fc.fit(caller["t_fit"], caller["y_fit"])
+                elif name == "forecast_cum":
+                    fc.forecast_cum(caller["t_fit"])
+                elif name == "fit_pressure":
+                    n = 24
+                    pf = np.linspace(3000.0, 1200.0, n)
+                    caller["prod"] = pd.DataFrame({"Days": np.arange(n) * 1.0, "Gas": rng.uniform(0.5, 2.0, n), "Pressure": pf})
+                    before["prod"] = _digest(caller["prod"])
+                    fit_production_pressure(caller["prod"], caller["pvt"], 6000.0, n_iter=2)
+                elif name == "relperm":
+                    relative_permeabilities(caller["saturations"], RelPermParams(2, 2, 2, 0.1, 0.1, 0.05, 1, 1, 1))
+                elif name == "correlations":
+                    f = Fluid(200.0, 35.0, 0.8, 650.0, salinity=5.0)
+                    f.oil_FVF(caller["pressure"]); f.oil_viscosity(caller["pressure"]); f.water_FVF(caller["pressure"])
+                    f.water_viscosity(caller["pressure"]); f.gas_FVF(caller["pressure"], -70.0, 650.0)
+                elif name == "pseudopressure":
+                    p = np.sort(caller["pressure"])
+                    caller["pressure"] = p
+                    before["pressure"] = _digest(p)
+                    pseudopressure(p, np.full(7, 0.02), np.full(7, 0.9))
+
+            before = {k: _digest(v) for k, v in caller.items()}
+            order = ["FlowProperties", "rescale", "simulate", "recovery_factor", "interpolator", "fit", "forecast_cum",
+                     "fit_pressure", "relperm", "correlations", "pseudopressure"]
+            if set(order) != set(ops):
+                raise __import__("bbv").tlc.MachineryError(f"operation table of Ownership.tla changed: {sorted(ops)}")
+            for name in order:
+                try:
+                    run_op(name)
+                except Exception as ex:  # noqa: BLE001
+                    ctx.violation("Ownership.Raises", f"operation {name} raised {type(ex).__name__}: {ex}", replay={"stage": "own", "op": name})
+                    continue
+                ctx.case(f"own/{rep}/{name}")
+                for a in ops[name]["reads"]:
+                    if a in caller and a in before and _digest(caller[a]) != before[a]:
+                        ctx.violation("Ownership.NoWrite", f"operation {name} modified the caller's {a} ({'dict' if as_dict else 'DataFrame'} table)",
+                                      replay={"stage": "own", "op": name, "array": a})
+            # nothing at all changed by the end (also arrays an operation was not supposed to read)
+            for a, d in before.items():
+                if _digest(caller[a]) != d:
+                    ctx.violation("Ownership.NoWrite", f"caller's {a} changed during the session", replay={"stage": "own", "array": a})
+            kept = {"time": res is not None and res.time is caller["time"]}
+            ctx.extra.setdefault("aliasing_observed", {}).update({k: bool(v) for k, v in kept.items()})
 
 
 def replay(ctx: core.Ctx, obj: dict) -> None:
